@@ -108,6 +108,7 @@ func (c *Ctx) ruleSitesIMM() {
 					detail = "no comma-ok assertion to *types.Named on the resolved type"
 				}
 				c.require(si, rule, "TYPE-RESOLVE(+)", nm, detail)
+				c.require(si, rule, "PACKAGE-LEVEL(+)", si.take("package-level", c.pkgLevelPred()), pkgLevelDetail)
 
 				detail = "no positive immutableTypes.Contains(pkg(T), name(T)) on an index built by BuildImmutableTypesIndex"
 				imm := si.take("immutable-index", c.indexCallPred(fnContains, "indexing.BuildImmutableTypesIndex", true, func(call *ssa.Call) (bool, string) {
@@ -400,6 +401,7 @@ func (c *Ctx) ruleSitesCTOR() {
 				detail = "no comma-ok assertion to *types.Named on the resolved type"
 			}
 			c.require(si, rule, "TYPE-RESOLVE(+)", nm, detail)
+			c.require(si, rule, "PACKAGE-LEVEL(+)", si.take("package-level", c.pkgLevelPred()), pkgLevelDetail)
 
 			detail = "no positive constructors.HasType(pkg(T), name(T)) on an index built by BuildConstructorIndex"
 			ht := si.take("ctor-index", c.indexCallPred(fnHasType, "indexing.BuildConstructorIndex", true, func(call *ssa.Call) (bool, string) {
@@ -1249,5 +1251,63 @@ func (c *Ctx) tonl01Dispatch(si *siteInfo, rule string) {
 		c.ok(rule+"/DISPATCH", si.Name, where, "reached for node kinds "+got)
 	} else {
 		c.fail(rule+"/DISPATCH", si.Name, where, "TONL01 site is reached for node kinds ["+got+"]; the property lists composite literals, typed variable declarations (ValueSpec) and fields/parameters/results (Field)")
+	}
+}
+
+const pkgLevelDetail = "the type is identified by (package path, name) without requiring that it is declared at package level (obj.Parent() == pkg.Scope()): a function-local type that shares the name of an annotated type is reported"
+
+// pkgLevelPred: the literal says that the named type's object is declared in its package's scope -
+// obj.Parent() == pkg.Scope(), possibly as a disjunction with obj.Parent() == nil (objects that were not entered
+// into any scope: hand-built test fixtures).
+func (c *Ctx) pkgLevelPred() func(l Lit) bool {
+	P := c.P
+	isParent := func(v ssa.Value) bool {
+		return P.RootsAllDeep(v, func(r ssa.Value) bool {
+			call, ok := r.(*ssa.Call)
+			return ok && strings.HasSuffix(P.calleeName(call.Common()), ").Parent") && strings.Contains(P.calleeName(call.Common()), "go/types.")
+		})
+	}
+	isScope := func(v ssa.Value) bool {
+		return P.RootsAllDeep(v, func(r ssa.Value) bool { return P.CallTo(r, "(*go/types.Package).Scope") != nil })
+	}
+	atom := func(l Lit) string {
+		if l.Kind != "eq" || !l.Pos {
+			return ""
+		}
+		switch {
+		case isParent(l.X) && isScope(l.Y), isParent(l.Y) && isScope(l.X):
+			return "scope"
+		case isParent(l.X) && isNilConst(l.Y), isParent(l.Y) && isNilConst(l.X):
+			return "nil"
+		}
+		return ""
+	}
+	return func(l Lit) bool {
+		if atom(l) == "scope" {
+			return true
+		}
+		var subs []Lit
+		switch {
+		case l.Kind == "or" && l.Pos:
+			subs = l.Subs
+		case l.Kind == "and" && !l.Pos:
+			for _, sl := range l.Subs {
+				sl.Pos = !sl.Pos
+				subs = append(subs, sl)
+			}
+		default:
+			return false
+		}
+		sawScope := false
+		for _, sl := range subs {
+			switch atom(sl) {
+			case "scope":
+				sawScope = true
+			case "nil":
+			default:
+				return false
+			}
+		}
+		return sawScope
 	}
 }
